@@ -1,6 +1,8 @@
 package rules
 
 import (
+	"go/token"
+	"go/types"
 	"fmt"
 	"sort"
 	"strings"
@@ -229,6 +231,18 @@ func checkSackRelative(c *Ctx) {
 					if bi, ok := x.Common().Value.(*ssa.Builtin); ok && (bi.Name() == "min" || bi.Name() == "max") {
 						ops, what = x.Common().Args, bi.Name()
 					}
+					// ordering a whole slice of 32-bit values (slices.Min / Max / Sort ...): its elements are the operands
+					if cn := core.CalleeName(x.Common()); strings.HasPrefix(cn, "slices.") && len(x.Common().Args) > 0 {
+						if sl, ok := x.Common().Args[0].Type().Underlying().(*types.Slice); ok {
+							if bits, _ := core.IntBits(sl.Elem()); bits == 32 && (strings.Contains(cn, "Min") || strings.Contains(cn, "Max") || strings.Contains(cn, "Sort")) {
+								anyRaw, why := sliceHoldsRawEdges(c, f, x, x.Common().Args[0], raw)
+								if anyRaw {
+									n++
+									R.Check(why == "", "R02.5", fmt.Sprintf("%s#ordered-compare@b%d", fn, b.Index), in.Pos(), fn, "the slice of SACK edges is made relative to the initial sequence number (in place, over its whole range) before it is ordered", "SACK edges are ordered by "+cn+" as absolute 32-bit sequence numbers ("+why+"): the minimum is wrong when the probe sequence numbers wrap around 2^32")
+								}
+							}
+						}
+					}
 				}
 				if len(ops) == 0 {
 					continue
@@ -267,6 +281,140 @@ func checkSackRelative(c *Ctx) {
 		}
 	}
 	R.Floor("R02.5:ordered-comparisons", n, 1)
+}
+
+// sliceHoldsRawEdges: the slice S handed to an ordering call in f is filled with raw SACK edges (anyRaw); why is empty when a loop
+// that runs over the whole of S and replaces S[i] by S[i] - base (base not read from the options) lies between the filling and the
+// ordering call, and names what is missing otherwise.
+func sliceHoldsRawEdges(c *Ctx, f *ssa.Function, at *ssa.Call, S ssa.Value, raw func(*core.Term) bool) (bool, string) {
+	// where the elements come from: appends in f itself or in the module function that returned S
+	anyRaw := false
+	var fill []*ssa.Function
+	if call, ok := S.(*ssa.Call); ok {
+		if h := call.Common().StaticCallee(); h != nil && core.InModule(h) {
+			fill = append(fill, h)
+		}
+	}
+	fill = append(fill, f)
+	for _, g := range fill {
+		for _, b := range g.Blocks {
+			for _, in := range b.Instrs {
+				call, ok := in.(*ssa.Call)
+				if !ok {
+					continue
+				}
+				if bi, ok := call.Common().Value.(*ssa.Builtin); !ok || bi.Name() != "append" || len(call.Common().Args) < 2 {
+					continue
+				}
+				if !types.Identical(call.Type(), S.Type()) {
+					continue
+				}
+				for _, pa := range firstPath(g, b) {
+					env := core.NewEnv(c.P, pa)
+					// append(s, v) is append(s, tmp[:]...) with tmp[0] = v
+					if sl, ok := call.Common().Args[1].(*ssa.Slice); ok {
+						if arr, ok := sl.X.(*ssa.Alloc); ok {
+							for _, r := range *arr.Referrers() {
+								if ia, ok := r.(*ssa.IndexAddr); ok {
+									for _, r2 := range *ia.Referrers() {
+										if st, ok := r2.(*ssa.Store); ok && st.Addr == ssa.Value(ia) && raw(env.Term(st.Val)) {
+											anyRaw = true
+										}
+									}
+								}
+							}
+						}
+					}
+				}
+			}
+		}
+	}
+	if !anyRaw {
+		return false, ""
+	}
+	// the normalising loop
+	for _, b := range f.Blocks {
+		for _, in := range b.Instrs {
+			st, ok := in.(*ssa.Store)
+			if !ok {
+				continue
+			}
+			ia, ok := st.Addr.(*ssa.IndexAddr)
+			if !ok || ia.X != S {
+				continue
+			}
+			sub, ok := st.Val.(*ssa.BinOp)
+			if !ok || sub.Op != token.SUB {
+				continue
+			}
+			ld, ok := sub.X.(*ssa.UnOp)
+			if !ok {
+				continue
+			}
+			ia2, ok := ld.X.(*ssa.IndexAddr)
+			if !ok || ia2.X != S || ia2.Index != ia.Index {
+				continue
+			}
+			for _, pa := range firstPath(f, b) {
+				if raw(core.NewEnv(c.P, pa).Term(sub.Y)) {
+					return true, "the value subtracted from each edge is itself read from the options"
+				}
+			}
+			if _, isConst := sub.Y.(*ssa.Const); isConst {
+				continue
+			}
+			loop := innermostLoop(f, b)
+			if loop == nil || loop[at.Block()] {
+				continue
+			}
+			// whole range: the header tests index < len(S), the index starts at 0 (range form: phi(-1)+1)
+			var header *ssa.BasicBlock
+			for h := range loop {
+				all := true
+				for o := range loop {
+					if !h.Dominates(o) {
+						all = false
+					}
+				}
+				if all {
+					header = h
+				}
+			}
+			if header == nil || !header.Dominates(at.Block()) {
+				continue
+			}
+			whole := false
+			if iff, ok := header.Instrs[len(header.Instrs)-1].(*ssa.If); ok {
+				if cmp, ok := iff.Cond.(*ssa.BinOp); ok && cmp.Op == token.LSS && cmp.X == ia.Index {
+					if ln, ok := cmp.Y.(*ssa.Call); ok {
+						if bi, ok := ln.Common().Value.(*ssa.Builtin); ok && bi.Name() == "len" && ln.Common().Args[0] == S {
+							// index = phi(-1, index) + 1
+							if add, ok := ia.Index.(*ssa.BinOp); ok && add.Op == token.ADD {
+								if phi, ok := add.X.(*ssa.Phi); ok {
+									for _, e := range phi.Edges {
+										if k, ok := e.(*ssa.Const); ok && k.Value != nil && k.Int64() == -1 {
+											whole = true
+										}
+									}
+								}
+							}
+							if phi, ok := ia.Index.(*ssa.Phi); ok {
+								for _, e := range phi.Edges {
+									if k, ok := e.(*ssa.Const); ok && k.Value != nil && k.Int64() == 0 {
+										whole = true
+									}
+								}
+							}
+						}
+					}
+				}
+			}
+			if whole {
+				return true, ""
+			}
+		}
+	}
+	return true, "no loop over the whole slice subtracts the initial sequence number from each element before the call"
 }
 
 // rawQuoteHelpers: reviewed module functions that may inspect the raw quoted header bytes.
